@@ -179,7 +179,8 @@ def run_deadline(which, script, env, deadline):
         with contextlib.suppress(Exception):
             out, err = p.communicate(timeout=5)
         out, err = b"", b""
-    _kill_session(p.pid)
+    with contextlib.suppress(Exception):
+        os.killpg(p.pid, signal.SIGKILL)
     return {"rc": p.returncode, "out": out.decode("utf-8", "replace"), "err": err.decode("utf-8", "replace")[-400:],
             "timeout": to, "t": time.time() - t0}
 
@@ -1018,6 +1019,249 @@ def cstat_stream(ctx, work):
                                   kind="property" if direct else "correspondence")
     ctx.sample({"cstat": lines[7]["line"], "model": mouts[7]})
 
+
+# ----------------------------------------------------------------------------------------------
+# rsrc stream: consumers sharing one descriptor, over every kind of descriptor source
+# (run by the binaries: FIFOs, background writers, inherited stdin)
+
+RS_TEXTS = [
+    ("lines4", "l1\nl2\nl3\nl4\n"),
+    ("delims", "a:b\nc:d:e\nf\n"),
+    ("multibyte", "café\n€5 \U0001F600\nrésté\n"),
+    ("long_first", "x" * 1500 + "\n" + "y" * 10 + "\nz\n"),
+    ("long_second", "s\n" + "L" * 5000 + "\nend\n"),
+    ("many_short", "".join("n%d\n" % i for i in range(400))),
+    ("no_final_newline", "a\nbb\nccc"),
+    ("blank_lines", "\n\nx\n"),
+    ("empty", ""),
+]
+
+# name: (ops, fd, special)
+RS_CONSUMERS = [
+    ("read1", ["l"], 0, None),
+    ("read3", ["l", "l", "l"], 0, None),
+    ("read_n", ["n3", "l"], 0, None),
+    ("read_d", ["d::", "l"], 0, None),
+    ("read_u7", ["l", "l"], 7, None),
+    ("read_n_u7", ["n2", "n1", "l"], 7, None),
+    ("mapfile1", ["m", "l"], 0, None),
+    ("loop", None, 0, "loop"),
+    ("head1", None, 0, "head"),
+]
+
+RS_SOURCES = ["file", "exec_file", "fifo_prefilled", "fifo_external_writer", "fifo_slow_writer", "fifo_exec", "pipe_builtin",
+              "pipe_external", "pipe_slow_writer", "heredoc", "herestring", "procsubst", "devstdin_file", "devstdin_pipe",
+              "devfd", "stdin_pipe", "stdin_file", "devnull"]
+RS_SEEKABLE = {"file", "exec_file", "devstdin_file", "devfd", "stdin_file"}   # `head -n 1` gives back what it over-read only there
+
+
+def rs_group(cons, sleep_first):
+    name, ops, fd, special = cons
+    u = " -u 7" if fd == 7 else ""
+    pre = "sleep 0.05; " if sleep_first else ""
+    if special == "loop":
+        body = pre + 'while IFS= read -r l; do printf "got:%s\\n" "$l"; done; printf "end"'
+    elif special == "head":
+        body = pre + "head -n 1; printf 'R['; cat; printf ']'"
+    else:
+        parts = []
+        for i, o in enumerate(ops):
+            if o == "l":
+                parts.append("IFS= read -r%s v%d" % (u, i))
+            elif o.startswith("n"):
+                parts.append("IFS= read -r -n %s%s v%d" % (o[1:], u, i))
+            elif o.startswith("d:"):
+                parts.append("IFS= read -r -d '%s'%s v%d" % (o[2:], u, i))
+            elif o == "m":
+                parts.append("mapfile -n 1%s a%d; v%d=${a%d[0]}" % (u, i, i, i))
+        shows = "".join('printf "<%%s>" "$v%d"; ' % i for i in range(len(ops)))
+        body = pre + "; ".join(parts) + "; printf 'R['; cat%s; printf ']'; %s" % (" <&7" if fd == 7 else "", shows)
+    return "{ " + body.rstrip("; ") + "; }", (" 7<&0" if fd == 7 else "")
+
+
+def rs_script(source, cons, text):
+    """-> (script, effective text, stdin mode: None | 'pipe' | 'file')"""
+    fifo = source.startswith("fifo")
+    g, dup = rs_group(cons, sleep_first=fifo or source == "pipe_external")
+    eff = text
+    half = len(text) // 2
+    # do not cut inside a line's first bytes only: any split point is legal for a byte stream
+    d = "D=%s\nD1=%s\nD2=%s\n" % (lib_sq(text), lib_sq(text[:half]), lib_sq(text[half:]))
+    stdin = None
+    if source == "file":
+        sc = '%s < "$DF"%s\n' % (g, dup)
+    elif source == "exec_file":
+        sc = 'exec 8< "$DF"\n%s <&8%s\n' % (g, dup)
+    elif source == "fifo_prefilled":
+        sc = 'mkfifo "$FIFO"\nprintf "%%s" "$D" > "$FIFO" &\n%s < "$FIFO"%s\nwait\n' % (g, dup)
+    elif source == "fifo_external_writer":
+        sc = 'mkfifo "$FIFO"\ncat "$DF" > "$FIFO" &\n%s < "$FIFO"%s\nwait\n' % (g, dup)
+    elif source == "fifo_slow_writer":
+        sc = 'mkfifo "$FIFO"\n{ printf "%%s" "$D1"; sleep 0.15; printf "%%s" "$D2"; } > "$FIFO" &\n%s < "$FIFO"%s\nwait\n' % (g, dup)
+    elif source == "fifo_exec":
+        sc = 'mkfifo "$FIFO"\nprintf "%%s" "$D" > "$FIFO" &\nexec 8< "$FIFO"\n%s <&8%s\nwait\n' % (g, dup)
+    elif source == "pipe_builtin":
+        sc = 'printf "%%s" "$D" | %s%s\n' % (g, dup)
+    elif source == "pipe_external":
+        sc = 'cat "$DF" | %s%s\n' % (g, dup)
+    elif source == "pipe_slow_writer":
+        sc = '{ printf "%%s" "$D1"; sleep 0.15; printf "%%s" "$D2"; } | %s%s\n' % (g, dup)
+    elif source == "heredoc":
+        eff = text if (text == "" or text.endswith("\n")) else text + "\n"
+        sc = "%s <<'EOF_C11'%s\n%sEOF_C11\n" % (g, dup, eff)
+    elif source == "herestring":
+        eff = text + "\n"
+        sc = '%s <<< "$D"%s\n' % (g, dup)
+    elif source == "procsubst":
+        sc = '%s < <(printf "%%s" "$D")%s\n' % (g, dup)
+    elif source == "devstdin_file":
+        sc = '{ %s < /dev/stdin%s; } < "$DF"\n' % (g, dup)
+    elif source == "devstdin_pipe":
+        sc = 'printf "%%s" "$D" | { %s < /dev/stdin%s; }\n' % (g, dup)
+    elif source == "devfd":
+        sc = 'exec 8< "$DF"\n%s < /dev/fd/8%s\n' % (g, dup)
+    elif source == "stdin_pipe":
+        sc, stdin = "%s%s\n" % (g, dup), "pipe"
+    elif source == "stdin_file":
+        sc, stdin = "%s%s\n" % (g, dup), "file"
+    elif source == "devnull":
+        eff = ""
+        sc = "%s < /dev/null%s\n" % (g, dup)
+    else:
+        raise ValueError(source)
+    return d + sc, eff, stdin
+
+
+def rs_request(cons, eff):
+    name, ops, fd, special = cons
+    if special == "loop":
+        ops = ["l"] * (eff.count("\n") + 1)
+    elif special == "head":
+        ops = ["l"]
+    return "C11 rops %s %s" % (esc(eff), " ".join(ops))
+
+
+def rs_expected(cons, eff, m):
+    name, ops, fd, special = cons
+    toks = [unesc(t) for t in m.split(" ")]
+    vals, rest = toks[:-1], toks[-1]
+    if special == "loop":
+        n = eff.count("\n")
+        return "".join("got:%s\n" % v for v in vals[:n]) + "end"
+    if special == "head":
+        first = vals[0] + ("\n" if eff.startswith(vals[0] + "\n") else "")
+        return first + "R[" + rest + "]"
+    return "R[" + rest + "]" + "".join("<%s>" % v for v in vals)
+
+
+def rs_run(work, which, case, timeout):
+    df = work.fresh("rsd")
+    with open(df, "w", encoding="utf-8", newline="") as f:
+        f.write(case["text"])
+    fifo = work.fresh("fifo")
+    env = dict(lib.BASE_ENV)
+    env.update({"DF": df, "FIFO": fifo})
+    cmd = lib.shell_cmd(which, case["script"])
+    fin = None
+    try:
+        if case["stdin"] == "file":
+            fin = open(df, "rb")
+            sin, data = fin, None
+        elif case["stdin"] == "pipe":
+            sin, data = subprocess.PIPE, case["text"].encode("utf-8")
+        else:
+            sin, data = subprocess.DEVNULL, None
+        p = subprocess.Popen(cmd, env=env, stdin=sin, stdout=subprocess.PIPE, stderr=subprocess.PIPE, start_new_session=True)
+        try:
+            out, err = p.communicate(data, timeout=timeout)
+            r = {"timeout": False, "rc": p.returncode, "out": out.decode("utf-8", "replace"), "err": err.decode("utf-8", "replace")[-300:]}
+        except subprocess.TimeoutExpired:
+            with contextlib.suppress(Exception):
+                os.killpg(p.pid, signal.SIGKILL)
+            _kill_session(p.pid)
+            with contextlib.suppress(Exception):
+                p.communicate(timeout=5)
+            r = {"timeout": True, "rc": -9, "out": "", "err": ""}
+            _kill_session(p.pid)
+        with contextlib.suppress(Exception):
+            os.killpg(p.pid, signal.SIGKILL)      # a background writer that outlived the script (none when it ended normally)
+        return r
+    finally:
+        if fin:
+            fin.close()
+        for f_ in (df, fifo):
+            with contextlib.suppress(OSError):
+                os.unlink(f_)
+
+
+def gen_rs_cases(ctx):
+    cases = []
+    n = 0
+    for si, source in enumerate(RS_SOURCES):
+        for ci, cons in enumerate(RS_CONSUMERS):
+            if cons[3] == "head" and source not in RS_SEEKABLE:
+                continue
+            for ti, (tname, text) in enumerate(RS_TEXTS):
+                # quick: three texts per (source, consumer), rotating so that every text meets every source and consumer
+                if ctx.quick and (ti - si - 2 * ci) % 3 != 0:
+                    continue
+                n += 1
+                script, eff, stdin = rs_script(source, cons, text)
+                cases.append({"kind": "rsrc", "source": source, "consumer": cons[0], "text_name": tname, "text": text, "script": script,
+                              "stdin": stdin, "eff": eff, "cons": cons, "req": rs_request(cons, eff)})
+    return cases
+
+
+def rsrc_stream(ctx, work):
+    cases = gen_rs_cases(ctx)
+    mouts = lib.run_drv_parallel([c["req"] for c in cases], workers=8)
+
+    def one(c):
+        o = rs_run(work, "bash", c, 20)
+        b = rs_run(work, "brush", c, 15)
+        if b["timeout"]:            # a FIFO open or a background writer under load? a real hang reproduces
+            time.sleep(1)
+            b = rs_run(work, "brush", c, 40)
+        return b, o
+
+    res = lib.pmap(one, cases, workers=8)
+    nv = 0
+    for c, m, (b, o) in zip(cases, mouts, res):
+        ctx.count(("rsrc", c["source"], c["consumer"], c["text_name"]), nontrivial=c["eff"].count("\n") >= 2, bucket="rsrc_src_" + c["source"])
+        ctx.bucket("rsrc_consumer_" + c["consumer"])
+        ctx.impl_validated += 1
+        want = rs_expected(c["cons"], c["eff"], m)
+        small = {"kind": "rsrc", "source": c["source"], "consumer": c["consumer"], "text_name": c["text_name"], "script": c["script"],
+                 "stdin": c["stdin"], "text": c["text"] if len(c["text"]) < 300 else c["text"][:100] + "...(%d chars)" % len(c["text"])}
+        if o["timeout"]:
+            ctx.oracle_mismatch += 1
+            continue
+        if o["out"] != want:
+            ctx.oracle_mismatch += 1
+        clip = lambda t: t if len(t) < 400 else t[:150] + "...(%d chars)..." % len(t) + t[-100:]
+        if b["timeout"]:
+            ctx.violation("consumers of a shared descriptor (%s via %s): brush does not finish, bash does" % (c["consumer"], c["source"]), small)
+            continue
+        if c["source"] in ("stdin_pipe", "stdin_file") and b["out"] != o["out"] and c["cons"][3] is None:
+            # brush's own stdin is a std::io::Stdin (an 8 KiB BufReader): the first `read` pulls in everything that is
+            # available, later `read`s are served from that buffer, a command sharing fd 0 finds nothing
+            toks = m.split(" ")
+            starved = rs_expected(c["cons"], c["eff"], " ".join(toks[:-1] + ["%"]))
+            if b["out"] == starved and len(c["eff"].encode("utf-8")) <= 8192:
+                ctx.known_or_violation("inherited_stdin_read_ahead",
+                                       "`read` on the shell's inherited stdin reads ahead: the command sharing the descriptor afterwards gets nothing",
+                                       dict(small, brush=clip(b["out"]), bash=clip(o["out"])))
+                continue
+        direct = None
+        if b["out"] != o["out"]:
+            direct = "consumers of a shared descriptor (%s via %s) got other bytes than under bash: something was lost, repeated or over-read" % (c["consumer"], c["source"])
+        if (b["out"] != want or direct) and nv < 12:
+            nv += 1
+            ctx.violation(direct or "read on a shared descriptor: brush and the model disagree",
+                          dict(small, brush=clip(b["out"]), bash=clip(o["out"]), model=clip(want), brush_err=b["err"][-200:]),
+                          kind="property" if direct else "correspondence")
+    ctx.sample({"rsrc": cases[len(cases) // 3]["script"], "brush": res[len(cases) // 3][0]["out"][:200]})
+
 # ----------------------------------------------------------------------------------------------
 
 def run(ctx):
@@ -1034,6 +1278,7 @@ def run(ctx):
         pipe_stream(ctx, work, cap)
         inproc_streams(ctx, work, cap)
         cstat_stream(ctx, work)
+        rsrc_stream(ctx, work)
         bad_utf8_stream(ctx)
     finally:
         work.close()
@@ -1044,6 +1289,10 @@ def run(ctx):
                        "cstat: every (prior $?, substitution status) pair over {0,1,2,3,127,255} in 22 carrier forms (assignment-only, several "
                        "substitutions/assignments, declare/export/local, argument, temporary assignment, !/if/||, pipelines), prior status left by "
                        "a plain command, !, an && operand, an earlier substitution or a function; "
+                       "rsrc: consumers of one descriptor (read xk, read -n, read -d, read -u, mapfile -n 1, a while-read loop, head -n 1 as control, then cat) "
+                       "over every descriptor source (file, exec N<, FIFO by path with prefilled/external/slow writer, FIFO via exec, pipeline pipes, "
+                       "here-document, here-string, process substitution, /dev/stdin, /dev/fd/N, inherited stdin pipe/file, /dev/null) and texts with "
+                       "lines over 1024 and 4096 bytes, multi-byte characters, no final newline, through the binaries; "
                        "wait/subst/read: exhaustive small + seeded random through the in-process harness; non-trivial = payload > 1 byte / "
                        "more than one stage / text with trailing newline / at least one read of a multi-line text"
                        % (len(FORMS), "1 MiB" if ctx.quick else "4 MiB", cap))
@@ -1082,6 +1331,17 @@ def replay(ctx, rp):
             for v in sub.violations:
                 print("property on brush:", v["what"])
             return 1 if sub.violations else 0
+        if case.get("kind") == "rsrc":
+            c = dict(case)
+            src = [x for x in RS_TEXTS if x[0] == case["text_name"]]
+            c["text"] = src[0][1] if src else case["text"]
+            b = rs_run(work, "brush", c, 30)
+            o = rs_run(work, "bash", c, 30)
+            print("script (DF = file holding the text, FIFO = a fresh path; stdin: %s):\n%s" % (case.get("stdin"), case["script"]))
+            print("brush: ", repr(b["out"][:1500]), "TIMEOUT" if b["timeout"] else "")
+            print("bash:  ", repr(o["out"][:1500]))
+            print("same as bash:", b["out"] == o["out"] and not b["timeout"])
+            return 0 if (b["out"] == o["out"] and not b["timeout"]) else 1
         if "script" in case:
             v = run_inproc([case["script"]])
             b = run_bash_scripts(work, [case["script"]])
